@@ -1,49 +1,66 @@
 #!/usr/bin/env python3
-"""Development-time validation of the rules (DESIGN.md §2.6); NOT a registered check.
+"""Development-time validation of the rules (DESIGN.md §2.6 / §8.1); NOT a registered check.
 
 Each mutant in selftest/mutants/*.json is {"prop","name","file","old","new","expect"(rule id or list),
-"note"}: `old` must occur exactly once in /repo/<file>; the mutated file is handed to the
-checker through a go/packages overlay (nothing in /repo is touched); the checker must exit 1
-and name the expected rule.  `expect: "none"` marks a behaviour-preserving edit on which
+"note"} or has "edits":[{"old","new"},...]: `old` must occur exactly once in /repo/<file>; the mutated
+file is handed to the checker through a go/packages overlay (nothing in /repo is touched); the checker
+must exit 1 and name the expected rule.  `expect: "none"` marks a behaviour-preserving edit on which
 the checker must stay silent (exit 0).
-usage: run.py [prop ...]"""
+usage: run.py [-j N] [prop|name ...]      (env SIOTCHECK selects the binary)"""
 import json, os, subprocess, sys, tempfile, glob, shutil
+from concurrent.futures import ThreadPoolExecutor
 V = '/verif'
+
+def run_one(m):
+    src = open('/repo/' + m['file']).read()
+    edits = m.get('edits') or [{'old': m['old'], 'new': m['new']}]
+    for e in edits:
+        if src.count(e['old']) != 1:
+            return False, f"SKIP? {m['prop']} {m['name']}: 'old' occurs {src.count(e['old'])}x", ''
+        src = src.replace(e['old'], e['new'])
+    d = tempfile.mkdtemp(prefix='siotmut')
+    try:
+        mp = os.path.join(d, 'mut.go'); open(mp, 'w').write(src)
+        ov = os.path.join(d, 'ov.json'); json.dump({'/repo/' + m['file']: mp}, open(ov, 'w'))
+        os.makedirs(d + '/evidence')
+        if os.path.exists(V + '/known-findings.json'):
+            shutil.copy(V + '/known-findings.json', d)
+        env = dict(os.environ, SIOT_OVERLAY=ov, SIOT_VERIF=d)
+        r = subprocess.run([os.environ.get('SIOTCHECK', V + '/bin/siotcheck'), '-prop', m['prop']], env=env, capture_output=True, text=True)
+        out = r.stdout + r.stderr
+        exp = m['expect'] if isinstance(m['expect'], list) else [m['expect']]
+        if exp == ['none']:
+            good = r.returncode == 0
+        else:
+            good = r.returncode == 1 and all(f"{m['prop']}/{x} " in out for x in exp)
+        line = ('ok   ' if good else 'FAIL ') + f"{m['prop']} {m['name']} exit={r.returncode} expect={exp}"
+        detail = ''
+        if not good:
+            detail = '\n'.join('      ' + l for l in out.splitlines() if 'VIOLATION' in l or 'CHECKER-ERROR' in l or '/R' in l and 'rule ' not in l)[:3000]
+        return good, line, detail
+    finally:
+        shutil.rmtree(d)
+
 def main():
-    want = set(sys.argv[1:])
-    files = sorted(glob.glob(V + '/selftest/mutants/*.json'))
-    bad = 0; n = 0
-    for mf in files:
+    args = sys.argv[1:]
+    jobs = 6
+    if args and args[0] == '-j':
+        jobs = int(args[1]); args = args[2:]
+    want = set(args)
+    todo = []
+    for mf in sorted(glob.glob(V + '/selftest/mutants/*.json')):
         for m in json.load(open(mf)):
-            if want and m['prop'] not in want and m['name'] not in want: continue
-            n += 1
-            src = open('/repo/' + m['file']).read()
-            edits = m.get('edits') or [{'old': m['old'], 'new': m['new']}]
-            ok = True
-            for e in edits:
-                if src.count(e['old']) != 1:
-                    print(f"SKIP? {m['prop']} {m['name']}: 'old' occurs {src.count(e['old'])}x"); ok = False; break
-                src = src.replace(e['old'], e['new'])
-            if not ok: bad += 1; continue
-            d = tempfile.mkdtemp(prefix='siotmut')
-            try:
-                mp = os.path.join(d, 'mut.go'); open(mp, 'w').write(src)
-                ov = os.path.join(d, 'ov.json'); json.dump({'/repo/' + m['file']: mp}, open(ov, 'w'))
-                os.makedirs(d + '/evidence'); shutil.copy(V + '/known-findings.json', d) if os.path.exists(V + '/known-findings.json') else None
-                env = dict(os.environ, SIOT_OVERLAY=ov, SIOT_VERIF=d)
-                r = subprocess.run([os.environ.get('SIOTCHECK', V + '/bin/siotcheck'), '-prop', m['prop']], env=env, capture_output=True, text=True)
-                out = r.stdout + r.stderr
-                exp = m['expect'] if isinstance(m['expect'], list) else [m['expect']]
-                if exp == ['none']:
-                    good = r.returncode == 0
-                else:
-                    good = r.returncode == 1 and all(f"{m['prop']}/{x} " in out for x in exp)
-                print(('ok   ' if good else 'FAIL ') + f"{m['prop']} {m['name']} exit={r.returncode} expect={exp}")
-                if not good:
-                    bad += 1
-                    print('\n'.join('      ' + l for l in out.splitlines() if 'VIOLATION' in l or 'CHECKER-ERROR' in l or '/R' in l and 'rule ' not in l)[:3000])
-            finally:
-                shutil.rmtree(d)
-    print(f"{n} mutants, {bad} problems")
+            if want and m['prop'] not in want and m['name'] not in want:
+                continue
+            todo.append(m)
+    bad = 0
+    with ThreadPoolExecutor(max_workers=jobs) as ex:
+        for good, line, detail in ex.map(run_one, todo):
+            print(line, flush=True)
+            if not good:
+                bad += 1
+                if detail:
+                    print(detail)
+    print(f"{len(todo)} mutants, {bad} problems")
     sys.exit(1 if bad else 0)
 main()
